@@ -325,6 +325,40 @@ def db_roundtrip(res, inj, scratch, mps, compact_flags, dialect):
         scratch.drop_db_dir(path)
 
 
+def escape_battery(res, inj, scratch):
+    """The tokens the row layout reserves, decorated the ways an escaping scheme would decorate them, in every string
+    slot (deterministic, every run): each is just a string and comes back as itself, and no two of them as the same."""
+    tokens = ["_none", "none", "None", "_tag_", "_field_", "t_", "f_", "_default", "_", ""]
+    deco = [lambda t: "_" + t, lambda t: "__" + t, lambda t: t + "_", lambda t: "\\" + t, lambda t: t + t, lambda t: '"' + t + '"',
+            lambda t: " " + t, lambda t: t + " ", lambda t: t.upper(), lambda t: "%" + t, lambda t: t + "\\", lambda t: t]
+    strings = []
+    for t in tokens:
+        for d in deco:
+            x = d(t)
+            if x not in strings:
+                strings.append(x)
+    pts = []
+    for i, x in enumerate(strings):
+        us = 1_614_834_367_000_000 + i
+        if x != "_none":  # tag value "_none" is the listed codec finding
+            pts.append(MPoint(us, "m0", {"k": x}, {"x": 1}))
+        if x != "":
+            pts.append(MPoint(us, x, {"k": "v"}, {}))
+        pts.append(MPoint(us, "m0", {x: "v"}, {}))
+        pts.append(MPoint(us, "m0", {}, {x: 1.5}))
+    # one witness per listed codec finding, so that every run reports each of them (classified, never a violation)
+    pts.append(MPoint(1_614_834_367_999_001, "m0", {"k": "_none"}, {"x": 1}))
+    pts.append(MPoint(1_614_834_367_999_002, "m0", {"k": "v"}, {"x": 2**53 + 1}))
+    for mp in pts:
+        res.count("escape_battery_points")
+        for compact in (False, True):
+            codec_roundtrip(res, inj, mp, compact, {})
+    for k in range(0, len(pts), 40):
+        db_roundtrip(res, inj, scratch, pts[k:k + 40], [bool(j % 2) for j in range(len(pts[k:k + 40]))], {})
+    for compact in (False, True):
+        codec_roundtrip(res, inj, MPoint(1_614_834_367_999_003, "m0", {"k": "v"}, {"x": 10**400}), compact, {})
+
+
 def run(res, tier, seed, shard, nshards):
     res.rule = (
         "seeded points: every string slot (measurement, tag keys/values, field keys) drawn from a nasty-string generator "
@@ -357,6 +391,8 @@ def run(res, tier, seed, shard, nshards):
                 batch, flags = [], []
         if batch:
             db_roundtrip(res, inj, scratch, batch, flags, {})
+        if shard == 0:
+            escape_battery(res, inj, scratch)
     res.require("codec.through_csv_module")
     res.require("db_roundtrips")
     res.require("prefix.compact")
@@ -367,6 +403,10 @@ def run(res, tier, seed, shard, nshards):
         "a row is only pushed through a csv dialect if the csv module itself round-trips that row under that dialect (counted discards)",
         "injectivity is checked among the points of one run (per worker process)",
     ]
+
+
+def finalize(res, tier):
+    res.require("escape_battery_points")
 
 
 def replay(res, rep):
